@@ -281,6 +281,12 @@ func (p *ParagraphReader) Next() (*Paragraph, error) {
 		lastKey = strings.TrimSpace(els[0])
 		value := strings.TrimSpace(els[1])
 
+		if strings.HasPrefix(lastKey, "#") {
+			/* e.g. "\r#foo: bar": not a comment (the line does not start
+			 * with '#'), but a name that would be written out as one */
+			return nil, fmt.Errorf("Bad line: field name '%s' starts with '#'", lastKey)
+		}
+
 		if _, found := paragraph.Values[lastKey]; found {
 			return nil, fmt.Errorf("Bad line: field '%s' appears twice in one paragraph", lastKey)
 		}
